@@ -233,8 +233,10 @@ type h2Case struct {
 }
 
 // multiCont reports whether the byte sequence, read as HTTP/2 frames by an independent walk over the
-// 9-byte frame headers, holds a HEADERS/PUSH_PROMISE frame without END_HEADERS that is followed by two
-// CONTINUATION frames of which the first lacks END_HEADERS - the shape of the listed finding.
+// 9-byte frame headers, holds a complete HEADERS frame without END_HEADERS directly followed by a
+// complete CONTINUATION frame that also lacks END_HEADERS (in a well-formed stream: a header block
+// with >= 2 CONTINUATION frames) - the shape of the listed finding: readMetaFrame re-reads that
+// first CONTINUATION forever.
 func multiCont(side string, b []byte) bool {
 	if side == "server" {
 		if len(b) < 24 {
@@ -242,7 +244,7 @@ func multiCont(side string, b []byte) bool {
 		}
 		b = b[24:]
 	}
-	open, conts := false, 0
+	open := false
 	for len(b) >= 9 {
 		l := int(b[0])<<16 | int(b[1])<<8 | int(b[2])
 		typ, flags := b[3], b[4]
@@ -250,16 +252,13 @@ func multiCont(side string, b []byte) bool {
 			return false
 		}
 		switch {
-		case typ == 1 || typ == 5:
-			open, conts = flags&0x4 == 0, 0
+		case typ == 1:
+			open = flags&0x4 == 0
 		case typ == 9 && open:
-			conts++
-			if conts >= 2 {
+			if flags&0x4 == 0 {
 				return true
 			}
-			if flags&0x4 != 0 {
-				open = false
-			}
+			open = false
 		default:
 			open = false
 		}
